@@ -45,7 +45,7 @@ def sameCast (t : TView) : TView := t
 def memberCast (t : TView) (sT2 off : Int) : TView :=
   ⟨sT2, t.ptr + off, ⟨0, t.v.lay.scale t.esz sT2⟩⟩
 
-/-- `static_assert(sizeof(T)%sizeof(T2) == 0)` and the two assertions of every level of `scale` -/
+/-- `static_assert(sizeof(T)%sizeof(T2) == 0)` and the two assertions (stride, offset) of every level of `scale` -/
 def memberCastAsserts (t : TView) (sT2 : Int) : Bool :=
   decide (t.esz.tmod sT2 = 0) && t.v.lay.scaleAsserts t.esz sT2
 
@@ -57,8 +57,9 @@ def reinterpret (t : TView) (sU : Int) : TView :=
 def reinterpretAsserts (t : TView) (sU : Int) : Bool := t.v.lay.scaleAsserts t.esz sU
 
 /-- the `const&` overload of the D = 1 specialisation (3257-3264) does not call `scale`: it rebuilds the level as
-    `{sub, stride*sizeof(T)/sizeof(U), offset*sizeof(T)/sizeof(U), nelems*sizeof(T)/sizeof(U)}` and asserts only
-    `stride*sizeof(T) % sizeof(U) == 0` (the offset is scaled, not asserted to be 0). -/
+    `{sub, stride*sizeof(T)/sizeof(U), offset*sizeof(T)/sizeof(U), nelems*sizeof(T)/sizeof(U)}` (the same arithmetic as
+    `scale` since the fix "member_cast / reinterpret_array_cast on views with non-zero index bases scale the offset") and
+    asserts only `stride*sizeof(T) % sizeof(U) == 0`. -/
 def reinterpret1 (t : TView) (sU : Int) : TView :=
   match t.v.lay with
   | [d] => ⟨sU, t.ptr, ⟨0, [⟨(d.stride * t.esz).tdiv sU, (d.offset * t.esz).tdiv sU, (d.nelems * t.esz).tdiv sU⟩]⟩⟩
